@@ -1,7 +1,7 @@
 /-
 C14 driver: replays every trace line on the model and evaluates the Spec oracle on the OBSERVED result.
 Line kinds (see the harness files for the exact grammar): loop, wait (internal/retry packages);
-clsh, uph (HTTP clients); clsg, upg (gRPC clients).
+clsh, uph (HTTP clients); clsg, upg (gRPC clients); e2e14 (real exporters against in-process collectors).
 -/
 import Otel.C14.Spec
 open Otel Otel.Wire Otel.C14
@@ -302,9 +302,37 @@ def upLine {α : Type} (parse : String → Option α) (classify : α → Outcome
            model := modelStr }
   | _, _ => none
 
+/-- End-to-end line (harness/bb/otlpe2e): the REAL exporter, built through the public API from options and
+environment variables, against an in-process collector that follows the script.
+`e2e14 <gen> <exp> <batch[~partner batch~role]> <opts> <env×10> <url table> <en> <M> <stall> <tls> <resp> | <resp> … => <res> <attempts> s<0|1> h<n> g<bits|-> p<0|1>`
+(p: the exporter's Shutdown after the export returned nil promptly; `~…~A|B`: one of two interleaved exporters, judged on its own script)
+Judged exactly like `uph`/`upg` (same `requestLoop` run, same Spec predicates, same F19 classification of the
+wall-clock gaps); the only difference is the result alphabet: an API user cannot tell a retryable final error from
+a fatal one, so the observed `err` stands for the class of the outcome of the last attempt made. -/
+def e2eLine (inp obs : List String) : Option Verdict :=
+  match inp, obs with
+  | _ :: gen :: exp :: rest, res :: natt :: restObs =>
+    match rest.drop 13 with
+    | en :: msel :: _ :: _ :: resps => do
+      let http := exp.endsWith "h"
+      let n ← natt.toNat?
+      let tok := (resps.filter (· != "|")).getD (n - 1) ""
+      let last : Outcome :=
+        if n == 0 then .fatal
+        else if http then ((parseHttpResp tok).map classifyHTTP).getD .fatal
+        else ((parseGrpcResp tok).map classifyGRPC).getD .fatal
+      let res' := if res == "err" then (if Spec.isRetryable last then "retry" else "fatal") else res
+      let inp' := ["e2e14", gen, exp, en, msel, "-"] ++ resps
+      let obs' := res' :: natt :: restObs
+      if http then upLine parseHttpResp classifyHTTP Spec.F19_applies "ctx" inp' obs'
+      else upLine parseGrpcResp classifyGRPC (fun _ => false) "ctx" inp' obs'
+    | _ => none
+  | _, _ => none
+
 def stepLine (_ : Unit) (toks : List String) : Unit × Option Verdict :=
   let (inp, obs) := splitObs toks
   match inp.head? with
+  | some "e2e14" => ((), e2eLine inp obs)
   | some "loop" => ((), loopLine inp obs)
   | some "wait" => ((), waitLine inp obs)
   | some "clsh" => ((), clshLine inp obs)
